@@ -1635,38 +1635,11 @@ Example valid_spec_ex :
   fst (Valid 10000 skip_spec (firstn 21 ex_doc) None) = Some true /\ fst (Valid 10000 skip_spec ex_doc None) = Some false.
 Proof. vm_compute. auto. Qed.
 
-(** * OPEN (not proved here; exact intended statements)
-
-(* OPEN: number tails of the plain automaton (contexts CFTop, CHArr, CHObj, where [scans c = false]):
-   the analogue of [int_tail] with TFrac0 / TFrac / TExp0 / TExpS / TExp instead of the scanners:
-     forall c t s l, scans c = false -> in_intpart t = true -> At s l -> (t = TInt -> next byte not a digit) ->
-     match tail_ref l with
-     | Some k => Reach (c, PTok t) s (c, after c) (adv s k) /\ k <= length l
-     | None => Ends (c, PTok t) s (ErrOf c s)
-     end. *)
-
-(* OPEN: fast_agrees_spec (C11):
-     forall data stack n, skip_ref data = Some n ->
-     exists s, prun 10000 skipfast_spec data no_handler stack [] = ODone n None s.
-   Plan: [scalar_run] for CFTop (needs the lemma above); for containers a lemma "a strict value of
-   length n read in (CFArr | CFObj, PBody) stays in PBody for n bytes with the same stack", by the
-   same induction as [value_ok] (strings by [string_run] with mk = (c, PTok _), qend = (c, PBody)). *)
-
-(* OPEN: members_spec_correct (C07).  With
-     well_behaved data h := forall c calls, h_err (h (c :: calls)) = None /\ h_havoc (h (c :: calls)) = [] /\
-        (h_pp (h (c :: calls)) = 0 \/ skip_ref (skipn (Z.to_nat (c_p c)) data) = Some (h_pp (h (c :: calls))))
-   the statement is, for obj = false / harr_spec and obj = true / hobj_spec:
-     forall data h stack, well_behaved data h ->
-     match members_ref obj data with
-     | Some (ms, e) => exists s, prun 10000 (if obj then hobj_spec else harr_spec) data h stack [] = ODone e None s /\
-                                 map (fun c => (c_p c, c_key c)) (rev (s_calls s)) = ms
-     | None => exists p e s, prun 10000 (if obj then hobj_spec else harr_spec) data h stack [] = ODone p (Some e) s
-     end.
-   Needs [value_ok] for chk = false (no depth limit: the same proof with [call_step] never failing). *)
-
-(* OPEN: append_spec_correct (C06):
-     forall content rest out dst h stack md, decode_content content = Some out ->
-     obs (prun md append_spec (content ++ x22 :: rest) h stack dst)
-       = ObsDone (len content + 1) None [] (dst ++ out) false
-   and, if string_body l = None, the outcome is an error (EInvalidString or EByteInString). *)
-*)
+(** * Continued in SpecFacts2.v and SpecFacts3.v
+    The items listed as OPEN in the first version of this file are proved there:
+      - the number tail of the plain automaton: [auto_tail] (SpecFacts2.v);
+      - [fast_agrees_spec], [SkipValueFast_agrees] (C11, SpecFacts2.v);
+      - [members_spec_correct], [members_called_once], [members_ref_values] (C07, SpecFacts2.v),
+        with [prun_md_irrelevant] (machines without depth-checked calls ignore the depth limit);
+      - [append_spec_correct], [unescape_spec_correct], [unescape_agrees_append],
+        [ReadStringBytes_spec_correct], [ReadStringBytes_appends] (C06 / C16, SpecFacts3.v). *)
